@@ -15,6 +15,7 @@ interleaving semantics of `Model/Conc.lean`.
 import PromVerif.Lemmas.ConcSpec
 import PromVerif.Lemmas.ConcLog
 import PromVerif.Lemmas.ConcFile
+import PromVerif.Generated.Registry
 
 set_option linter.unusedSectionVars false
 
@@ -783,5 +784,16 @@ theorem register_reentrant_describe_deadlocks :
     wellLockedCode .mutex (fun _ => true) describeReenters = false ∧
     (let s := run (fun (_ : CLabel) (_ c : Nat) => c) (init (fun _ => 0) [describeReenters]) (List.replicate 40 0)
      finishedB s = false ∧ (step (fun (_ : CLabel) (_ c : Nat) => c) s 0).isNone = true) := by decide
+
+/-- **A built-in metric is complete when it is published.**  `MetricWrapperBase.__init__` ends in `registry.register(self)`;
+from that bytecode on a `collect()` in another thread can reach the object although the subclass constructor has not returned.
+T1 (`Generated.Registry.ctorsPublishComplete`, read from `metrics.py`): no subclass constructor assigns, after the base
+constructor returned, an attribute that `collect` / `describe` / `_samples` / `_child_samples` / `_multi_samples` read, and
+(`ctorsRegisterLast`) none can raise there.  On a tree where e.g. `Enum.__init__` sets `_states` after `super().__init__`
+(the unchanged tree did: finding F38, a concurrent collect raised AttributeError) the `decide` fails and the scheduler programs
+`mk:T:a | colf / gen / rcn` of `harness/props/c02.py` exhibit the schedule. -/
+theorem constructors_publish_complete :
+    PromVerif.Generated.Registry.ctorsPublishComplete = true ∧ PromVerif.Generated.Registry.ctorsRegisterLast = true := by
+  decide
 
 end PromVerif.Props.C02
